@@ -1,3 +1,4 @@
+import NgVerif.Proofs.Source
 import NgVerif.Proofs.Volume
 import NgVerif.Props.C11
 /-
@@ -68,5 +69,17 @@ example : readVoxel (convert (fun x y z c => 1000 * x + 100 * y + 10 * z + c) 2 
     = some 2121 := by decide
 
 example : (volumeLoop (5, 4, 3) (2, 3, 2)).length = 12 := by decide
+
+/-- TRANSLATED SOURCE. The loop bounds of `volume_to_precomputed` as they stand in /repo's source (translated on
+    every run: `range((size-1)//cs+1)`, `cs*i`, `min(cs*(i+1), size)`) are the chunk ranges the model iterates
+    over, for all sizes ≥ 1 and chunk sizes -/
+theorem source_loop_bounds_are_the_model (s c i : Nat) (hs : 1 ≤ s) :
+    Generated.Src.volCountZ (size_2 := s) (chunk_size_2 := c) = ((count s c : Nat) : Int) ∧
+    Generated.Src.volCountX (size_0 := s) (chunk_size_0 := c) = ((count s c : Nat) : Int) ∧
+    Generated.Src.volLowerZ (chunk_size_2 := c) (z_chunk_idx := i) = ((c * i : Nat) : Int) ∧
+    Generated.Src.volUpperZ (chunk_size_2 := c) (z_chunk_idx := i) (size_2 := s) = ((min (c * (i + 1)) s : Nat) : Int) ∧
+    Generated.Src.volUpperX (chunk_size_0 := c) (x_chunk_idx := i) (size_0 := s) = ((min (c * (i + 1)) s : Nat) : Int) :=
+  ⟨(Source.volCount_eq_model s c hs).1, (Source.volCount_eq_model s c hs).2, (Source.volBounds_eq_model s c i).1,
+   (Source.volBounds_eq_model s c i).2.1, (Source.volBounds_eq_model s c i).2.2⟩
 
 end NgVerif.Props.C01
